@@ -20,14 +20,18 @@ def plans(ctx):
         menu = [("k2a", [1, 2, 3, L], 1, 64), ("k2a", [L], 2, 10), ("k2b", [1, 2, L], 1, 10), ("k2m1", [1, 2, 3, L], 1, 64),
                 ("k2m1", [L], 2, 10), ("k2vec", [1, 2, L], 1, 64), ("k2mat", [1, L], 1, 10), ("k2w3", [2, L], 1, 10),
                 ("k3a", [1, 2, L], 1, 10), ("k3b", [L], 0, 10), ("k2seed", [1, 2, L], 1, 64), ("k2big", [1, 2, L], 1, 10),
-                ("k2eps2", [L], 1, 10), ("k2e5", [L], 1, 10), ("k2one", [3, L], 1, 10)]
+                ("k2eps2", [L], 1, 10), ("k2e5", [L], 1, 10), ("k2one", [3, L], 1, 10), ("k2tiny", [L], 0, 10),
+                ("k2lowvar", [L], 0, 10)]
     else:
         menu = [("k2a", [1, 2, 3, L], 1, 10), ("k2m1", [1, 2, L], 1, 10), ("k2vec", [2, L], 1, 10),
-                ("k2seed", [1, L], 1, 10), ("k3a", [L], 0, 10)]
+                ("k2seed", [1, L], 1, 10), ("k3a", [L], 0, 10), ("k2tiny", [L], 0, 10), ("k2lowvar", [L], 0, 10)]
     out = []
     for (name, limits, bound, cap) in menu:
         d = ml.get_driver(name, ctx.seed)
-        out.append(dict(driver=name, seed=ctx.seed, inits=ml.all_labellings(d.Tp, d.K), limits=limits,
+        inits = ml.all_labellings(d.Tp, d.K)
+        if name in ("k2tiny", "k2lowvar") and not ctx.thorough:
+            inits = inits[::2]
+        out.append(dict(driver=name, seed=ctx.seed, inits=inits, limits=limits,
                         bound=bound, entry="fit", monitors=MONS, conform=True, subset_cap=cap))
     return out
 
